@@ -190,27 +190,35 @@ def _b_body(i, col):
 
 
 # ------------------------------------------------------------------ C02.c surplus cells are rejected
-def ob_c(n: int, w: int, split: bool) -> bool:
+ROW_KINDS = ('data', 'field comment', 'null interpretation', 'barline', 'null token', 'split operator', 'terminator')
+
+
+def ob_c(n: int, w: int, split: bool, kind: int) -> bool:
     assume(1 <= n <= 3)
     assume(1 <= w <= 5)
-    return _c_body(choose(n - 1, 3) + 1, choose(w - 1, 5) + 1, bool(split))
+    assume(0 <= kind < len(ROW_KINDS))
+    return _c_body(choose(n - 1, 3) + 1, choose(w - 1, 5) + 1, bool(split), choose(kind, len(ROW_KINDS)))
 
 
 @native
-def _c_body(n, w, split):
+def _c_body(n, w, split, kind):
     heads = ['**kern'] * n
     rows = [heads, [sp.NOTE_POOL[j] for j in range(n)]]
     live = n
     if split and n < 3:
         rows.append(['*^'] + ['*'] * (n - 1))
         live = n + 1
-    rows.append([sp.NOTE_POOL[10 + j] for j in range(w)])
+    k = ROW_KINDS[kind]
+    rows.append([{'data': sp.NOTE_POOL[10 + j], 'field comment': '!c%d' % j, 'null interpretation': '*', 'barline': '=5', 'null token': '.',
+                  'split operator': '*^' if j == w - 1 else '*', 'terminator': '*-'}[k] for j in range(w)])
+    if k not in ('terminator',):
+        rows.append([sp.NOTE_POOL[20 + j] for j in range(w + (1 if k == 'split operator' else 0))])    # a following line of the same (wrong) width
     text = sp.to_text(rows)
     try:
         doc, errs = kp.loads(text)
     except Exception:
         return True                      # rejected: fine for w > live, merely recorded for w < live
-    check(w <= live, f'a line with {w} cells for {live} live spine paths was accepted: {text!r}')
+    check(w <= live, f'a {k} line with {w} cells for {live} live spine paths was accepted: {text!r}')
     return True
 
 
@@ -232,8 +240,9 @@ OBLIGATIONS = [
        bounds={'quick': 'all strings of 1..3 characters over {", \', comma, space, a, e-acute, backslash} in either column',
                'thorough': '1..4 characters, alphabet + ; |'}),
     Ob(id='C02.c', fn=ob_c, title='a line with more cells than live spine paths is rejected',
-       budget_s={'quick': 60, 'thorough': 120}, witnesses=[{'n': 2, 'w': 2, 'split': False}], min_confirmed=20,
-       enumerated='live paths 1..3 (+ optional split), row width 1..5', bounds={'quick': 'n<=3, w<=5', 'thorough': 'n<=3, w<=5'}),
+       budget_s={'quick': 60, 'thorough': 120}, witnesses=[{'n': 2, 'w': 2, 'split': False, 'kind': 0}], min_confirmed=100,
+       enumerated='live paths 1..3 (+ optional split), row width 1..5, line kind (data, field comment, null interpretation, barline, null token, split operator, terminator)',
+       bounds={'quick': 'n<=3, w<=5, 7 line kinds', 'thorough': 'same'}),
     Ob(id='C02.d', fn=ob_d, title='Importer.run with arbitrary data-cell text (stub spine importer): structure never depends on cell text',
        shard_of=lambda layout, s1, s2: layout, shards={'quick': 8, 'thorough': 16}, budget_s={'quick': 150, 'thorough': 1800},
        witnesses=[{'layout': 1, 's1': 'ab', 's2': '!x'}], min_confirmed=20,
